@@ -214,6 +214,20 @@ CLAIMED = {
         "sites whose variant grouping differs between strands get no noise; scores compared up to the tie-breaker mass",
         "DESIGN.md section 4 C13",
     ),
+    "C14": (
+        "history monitor with offline checker over recorded result signatures and deep snapshots; fresh-process replays over hash seeds; subset/order sweep of the minor stage with an exact re-computation classifier",
+        "Histories of 2-6 operations (single-gene runs, multi-gene runs in both orders and with a failing gene, accessor "
+        "sweeps, writers, query printing; the same shipped gene through whole-genome and exome-family profiles) are run "
+        "on BAM files holding two generated databases on different contigs; the offline checker requires equal result "
+        "signatures (structures, alleles, all score levels) for equal operations wherever they occur, multi-gene = single, "
+        "failing gene isolated. Random sequences of stage calls / accessors / writers on one loaded Gene + Sample are "
+        "followed by deep snapshots of catalogue and evidence after every call (compared with the snapshot before and "
+        "with a fresh load). One run is replayed in fresh processes under PYTHONHASHSEED 0-7. estimate_minor is called "
+        "with all subsets and orders of a candidate list with different structures; a difference is a known finding only "
+        "if it equals an independent re-computation of the documented shared-filter behaviour.",
+        "snapshots in ref/snapshot.py; scores compared exactly inside a process",
+        "DESIGN.md section 4 C14",
+    ),
 }
 
 NOT_YET = {}
